@@ -25,6 +25,7 @@
  */
 
 #include <stdlib.h>
+#include <limits.h>
 #include <stdio.h>
 #include <stdint.h>
 #include <stdbool.h>
@@ -348,6 +349,10 @@ bool comp_ioption(zckCtx *zck, zck_ioption option, ssize_t value) {
             set_error(zck, "Minimum chunk size must be > 0");
             return false;
         }
+        if(value > INT_MAX) {
+            set_error(zck, "Minimum chunk size must be <= %i", INT_MAX);
+            return false;
+        }
         if(value > zck->chunk_max_size) {
             set_error(zck, "Minimum chunk size must be <= maximum chunk size");
             return false;
@@ -361,6 +366,10 @@ bool comp_ioption(zckCtx *zck, zck_ioption option, ssize_t value) {
         VALIDATE_WRITE_BOOL(zck);
         if(value < 1) {
             set_error(zck, "Maximum chunk size must be > 0");
+            return false;
+        }
+        if(value > INT_MAX) {
+            set_error(zck, "Maximum chunk size must be <= %i", INT_MAX);
             return false;
         }
         if(value < zck->chunk_min_size) {
